@@ -179,8 +179,8 @@ def leg_a(ctx):
         ctx.proof["broken"].append((thm or where, "\n".join(errs[:6]) or log[-1500:]))
         ctx.proof["model_builds"] = core.MODEL_BIN.exists() and "SeedModel" not in where
         return
-    # forbidden constructs in every file the property file imports from SeedProofs / SeedModel
-    for fp in list((core.LEAN_DIR / "SeedProofs").rglob("*.lean")) + list((core.LEAN_DIR / "SeedModel").rglob("*.lean")):
+    # forbidden constructs in every file the property file (transitively) imports from SeedProofs / SeedModel
+    for fp in import_closure(pid):
         body = strip_lean_comments(fp.read_text())
         for i, line in enumerate(body.split("\n")):
             if FORBIDDEN.search(line):
@@ -208,6 +208,22 @@ def leg_a(ctx):
         if r.returncode != 0:
             ctx.proof["broken"].append((f"leanchecker SeedProofs.{pid}", r.stdout.decode(errors="replace")[-600:]))
     ctx.proof["wall_s"] = round(time.time() - t0, 1)
+
+
+def import_closure(pid):
+    """the SeedProofs / SeedModel source files that SeedProofs.<pid> transitively imports (itself included)"""
+    seen, todo = {}, [f"SeedProofs.{pid}"]
+    while todo:
+        mod = todo.pop()
+        if mod in seen:
+            continue
+        fp = core.LEAN_DIR / (mod.replace(".", "/") + ".lean")
+        if not fp.exists():
+            continue
+        seen[mod] = fp
+        for m in re.finditer(r"^import\s+((?:SeedProofs|SeedModel)[\w.]*)", fp.read_text(), re.M):
+            todo.append(m.group(1))
+    return list(seen.values())
 
 
 def locate_theorem(relpath, line):
